@@ -5,13 +5,13 @@ import Driver.Env
 import Driver.Cb
 import Driver.Encode
 /- line engine `sim` (C18): histories on the SimulationScreen model.
-   sim cfg <variant: 3 letters p|r = injectLE injectSkipErr setSizeEvent> <charset> <enc table r=hex[!],…>; op; op; …  -/
+   sim cfg <variant: 5 letters p|r = injectLE injectSkipErr setSizeEvent lastColClean combElide> <charset> <enc table r=hex[!],…>; op; op; …  -/
 namespace Driver.Sim
 open Tcell Driver
 
 def parseVariant (s : String) : SimVariant :=
   match s.toList with
-  | [a, b, c] => { injectLE := a == 'r', injectSkipErr := b == 'r', setSizeEvent := c == 'r' }
+  | [a, b, c, d, e] => { injectLE := a == 'r', injectSkipErr := b == 'r', setSizeEvent := c == 'r', lastColClean := d == 'r', combElide := e == 'r' }
   | _ => {}
 
 def parseEncTable (s : String) : List (Rune × EncResult) :=
@@ -55,8 +55,8 @@ def stepOp (rw : Rune → Int) (v : SimVariant) (enc : Encoder) (s : Sim) (op : 
   | ["F", r, st] => ({ s with back := s.back.fill (toInt! r) (Cb.parseStyle st) }, none)
   | ["Y", st] => ({ s with style := Cb.parseStyle st }, none)
   | ["C", x, y] => (s.setCursor (toInt! x) (toInt! y), none)
-  | ["W"] => (s.showScr enc, none)
-  | ["N"] => (s.sync enc, none)
+  | ["W"] => (s.showScr v enc, none)
+  | ["N"] => (s.sync v enc, none)
   | ["Z", w, h] => (s.setSize v (toInt! w) (toInt! h), none)
   | ["K", k, r, m] => (s.injectKey (toInt! k) (toInt! r) (toInt! m), none)
   | ["M", x, y, b, m] => (s.injectMouse (toInt! x) (toInt! y) (toInt! b) (toInt! m), none)
